@@ -6,6 +6,7 @@ from vt.terms import Poly, P, ZERO, ONE
 from vt.arr import Arr, input_arr, ModelError
 from vt.values import Obj, SList
 from vt import contract as K
+from vt import smt
 from vt import npmodel as N
 from vt.verify import Clause
 from contracts import gmm as G
@@ -61,6 +62,7 @@ def rng_fa(ctx):
         I = new_interp()
         T.PRODUCTS[:] = [(G.Cc, G.Dd)]
         N.EFFECTS.clear()
+        N.NPRandom.STATE = ("caller", 0)
         seed = T.sym("seed", "int")
         ci = I.classes[cls]
         m = Obj(ci)
@@ -72,8 +74,11 @@ def rng_fa(ctx):
             out.append(Clause("C16.rng.fa", "undecided", "", "%s: %s" % (cls, e)))
             continue
         eff = [e for e in N.EFFECTS if e[0].startswith("np.random")]
-        ok = bool(eff) and eff[0][0] == "np.random.seed" and isinstance(eff[0][1], Poly) and eff[0][1] == seed \
-            and all(e[0] != "np.random.seed" for e in eff[1:]) and len(eff) == (3 if rv else 2)
+        draws = [e for e in eff if e[0] == "np.random.normal"]
+        # every draw is made in a stream state that is a function of random_state alone: seed(random_state) followed by k draws
+        # (the k are then distinct by construction); saving / restoring the caller's state around the draws is allowed
+        ok = len(draws) == (2 if rv else 1) and all(len(e) == 3 and e[2][0] == "seeded" and isinstance(e[2][1], Poly) and e[2][1] == seed for e in draws) \
+            and len({e[2][2] for e in draws}) == len(draws)
         out.append(Clause("C16.rng.fa", "discharged" if ok else "refuted", "effects",
                           "%s.create_UVD reseeds NumPy's generator from random_state before every draw of U%s" % (cls, " and V" if rv else "")
                           if ok else "%s: RNG effects %r" % (cls, eff)))
@@ -161,6 +166,8 @@ def perm(ctx):
     res = I.run_paths(lambda: I.call(K.lookup(I, "gmm.e_step"), [G.mk_data(), G.mk_gmm(I)], {}))
     probs = []
     for pc, (k, st) in res:
+        if smt.equality_substitutions(smt.Facts(conds=list(pc))).get("N") == Poly.const(1):
+            continue        # a path taken only for ONE row: every function of one row is symmetric in the rows
         for f in ("n", "sum_px", "sum_pxx", "log_likelihood"):
             v = st.fields[f]
             t = P(v.fn(*[T.fresh("q") for _ in v.shape])) if isinstance(v, Arr) else P(v)
@@ -174,6 +181,8 @@ def perm(ctx):
     res = I.run_paths(lambda: I.call(K.lookup(I, "kmeans.e_step"), [KM.mk_data(), KM.mk_means()], {}))
     probs = []
     for pc, (k, r) in res:
+        if smt.equality_substitutions(smt.Facts(conds=list(pc))).get("N") == Poly.const(1):
+            continue
         for i, v in enumerate(r):
             t = P(v.fn(*[T.fresh("q") for _ in v.shape])) if isinstance(v, Arr) else P(v)
             probs += ["result[%d]: %s" % (i, p) for p in row_symmetric(t, "x", KM.Nn)]
